@@ -1,6 +1,7 @@
 package main
 
 import (
+	"regexp"
 	"fmt"
 	"strings"
 
@@ -255,7 +256,8 @@ func runC19(p *Prog, r *Report, tier string) {
 			if cbFn != nil {
 				cbName = funcName(cbFn)
 			}
-			okList := strings.HasPrefix(lv, "acc(nil;"+cbName+":append(fv:") && strings.HasSuffix(lv, ",[decode(p1)]))")
+			// exactly one assignment of the captured list, in the callback: list = append(list, decoded value)
+			okList := regexp.MustCompile(`^acc\(nil;` + regexp.QuoteMeta(cbName) + `:append\(fv:([A-Za-z_][A-Za-z_0-9]*),\[decode\(p1\)\]\)\)$`).MatchString(lv)
 			r.check(okList, "T-eq", "T-eq/query."+l.q+"/response."+l.field, p.instrPos(ret), "list = every visited value decoded and appended", "list field is "+lv)
 		}
 		// the callback decodes the VALUE (p1) into the collection's element type and propagates decode errors
